@@ -169,6 +169,53 @@ class Ctx:
         self.notes.setdefault("event_streams", []).append({"source": source, "calls": total_calls, "events": sum(1 for _ in open(events_path)), "accepted_calls": ok_calls, "rejected_calls": rejected})
         log("  TV_Events %s: %d calls, %d accepted by the machine, %d rejected" % (source, total_calls, ok_calls, rejected))
 
+    # ---- direction B: seeded random records validated by TLC against the big-step specification (spec/tv/TV_Call.tla)
+    def records(self, family, n=None, batches=None):
+        import re
+        n = n or (40000 if self.deep else 4000)
+        batch = 20000
+        b = self.bins(("release",))["release"]
+        done = 0
+        k = 0
+        verd = {"ok": 0, "skipped": 0, "bad": 0}
+        while done < n:
+            m = min(batch, n - done)
+            k += 1
+            rec = os.path.join(self.wd, "records-%s-%d.ndjson" % (family, k))
+            rc, out = vcheck.run([b, "record", family, str(m), str(self.seed * 1000 + k), rec], stdout=__import__("subprocess").DEVNULL, stderr=__import__("subprocess").PIPE)
+            if rc != 0:
+                raise ToolError("harness record failed: " + out[-1500:])
+            lines = open(rec).read().splitlines()
+            res = vcheck.run_tlc(self.wd, "TV_Call", env={"VERIF_TRACE": rec}, timeout=3600, subdir="tv", tag="TV_Call_%s_%d" % (family, k))
+            if "Model checking completed. No error has been found." not in res["out"]:
+                raise ToolError("TV_Call failed:\n" + "\n".join(res["out"].splitlines()[-40:]))
+            self.states += res["distinct"]
+            self.transitions += res["states"]
+            self.tlc_runs.append({"module": "TV_Call", "family": family, "records": len(lines), "distinct_states": res["distinct"], "states_generated": res["states"], "wall_s": round(res["wall_s"], 1)})
+            bad = {}
+            for mm in re.finditer(r'<<"VERDICT", (\d+), "([\w-]+)">>', res["out"]):
+                bad[int(mm.group(1))] = mm.group(2)
+            for i, why in sorted(bad.items()):
+                r = json.loads(lines[i - 1])
+                if why == "skipped":
+                    verd["skipped"] += 1
+                    continue
+                verd["bad"] += 1
+                self.verdicts.add({"kind": "crash" if why == "crash" else "mismatch", "why": "recorded call disagrees with the specification (%s)" % why, "sc": [self.pid],
+                                   "rule": r["plain"]["rule"], "data": r["plain"]["data"], "expected": "Eval(rule, data) of spec/JsonLogic.tla", "actual": r["plain"]["out"], "profile": "release",
+                                   "case": {"rule": r["rule"], "data": r["data"], "exp": {"ok": False, "v": {"t": "z"}, "log": []}, "note": "recorded call; bin/replay re-runs it"}}, "records-" + family)
+            verd["ok"] += len(lines) - len(bad)
+            if len(self.samples) < 8 and lines:
+                self.samples.append({"recorded_call": json.loads(lines[0])["plain"]})
+            for ln in lines:
+                self.nontrivial.add(hashlib.md5(ln.encode()).digest())
+            done += m
+        self.evaluations += done
+        self.validated += verd["ok"]
+        self.notes.setdefault("recorded_calls", []).append({"family": family, "records": done, "conform": verd["ok"], "skipped_unknown_number_text": verd["skipped"], "disagree": verd["bad"]})
+        log("  TV_Call %s: %d recorded calls of the real interpreter, %d conform to the specification, %d skipped (number text unknown to the spec), %d disagree" % (
+            family, done, verd["ok"], verd["skipped"], verd["bad"]))
+
     def machine(self, fam, live=True, profiles=("debug", "release")):
         """Model-check the small-step machine on a family, replay its terminal states, validate the hook events."""
         cases = self.mc("MC_Machine", env={"VERIF_FAMILY": fam}, tag="MC_Machine_" + fam)
@@ -203,7 +250,8 @@ def plan_C06(ctx):
                 "the value; one case per distinct TLC state; a case is non-trivial when its outcome depends on the truthiness decision (all are)")
     cases = ctx.mc("MC_C06")
     ctx.replay(cases)
-    ctx.exhaustive = True
+    ctx.records("ctl")
+    ctx.exhaustive = True   # the TLC-enumerated family; the random records on top of it are sampled
 
 
 def plan_C02(ctx):
@@ -212,7 +260,8 @@ def plan_C02(ctx):
                 "nested as an operand/branch result; one case per distinct TLC state")
     cases = ctx.mc("MC_C02")
     ctx.replay(cases)
-    ctx.exhaustive = True
+    ctx.records("mix")
+    ctx.exhaustive = True   # the TLC-enumerated family; the random records on top of it are sampled
 
 
 def plan_C03(ctx):
@@ -221,7 +270,8 @@ def plan_C03(ctx):
                 "arity error (selected/unselected branch, eager parent, after the deciding operand, default expression); one case per TLC state")
     cases = ctx.mc("MC_C03")
     ctx.replay(cases)
-    ctx.exhaustive = True
+    ctx.records("mix")
+    ctx.exhaustive = True   # the TLC-enumerated family; the random records on top of it are sampled
 
 
 def es_fixture_crosscheck(ctx):
@@ -246,7 +296,8 @@ def plan_rel(ctx):
     ctx.replay(cases)
     if pid in ("C07", "C09"):
         strnum(ctx)
-    ctx.exhaustive = True
+    ctx.records({"C07": "rel07", "C08": "rel08", "C09": "rel09"}[pid])
+    ctx.exhaustive = True   # the TLC-enumerated family; the random records on top of it are sampled
 
 
 def plan_C10(ctx):
@@ -257,7 +308,8 @@ def plan_C10(ctx):
     cases = ctx.mc("MC_C10")
     ctx.replay(cases)
     strnum(ctx)
-    ctx.exhaustive = True
+    ctx.records("arith")
+    ctx.exhaustive = True   # the TLC-enumerated family; the random records on top of it are sampled
 
 
 def plan_C11(ctx):
@@ -266,7 +318,8 @@ def plan_C11(ctx):
                 "operand-less, computed key, data extended with an unnamed sibling) x 5 defaults; one case per TLC state; cases whose key the statement leaves open are drift-only")
     cases = ctx.mc("MC_C11")
     ctx.replay(cases)
-    ctx.exhaustive = True
+    ctx.records("data11")
+    ctx.exhaustive = True   # the TLC-enumerated family; the random records on top of it are sampled
 
 
 def plan_C12(ctx):
@@ -275,7 +328,8 @@ def plan_C12(ctx):
                 "one case per TLC state" % (4 if ctx.deep else 3))
     cases = ctx.mc("MC_C12")
     ctx.replay(cases)
-    ctx.exhaustive = True
+    ctx.records("data12")
+    ctx.exhaustive = True   # the TLC-enumerated family; the random records on top of it are sampled
 
 
 def plan_C13(ctx):
@@ -285,7 +339,8 @@ def plan_C13(ctx):
     cases = ctx.mc("MC_C13")
     ctx.replay(cases)
     ctx.machine("C13")
-    ctx.exhaustive = True
+    ctx.records("arr")
+    ctx.exhaustive = True   # the TLC-enumerated family; the random records on top of it are sampled
 
 
 def plan_C14(ctx):
@@ -295,7 +350,8 @@ def plan_C14(ctx):
     cases = ctx.mc("MC_C14")
     ctx.replay(cases)
     ctx.machine("C14")
-    ctx.exhaustive = True
+    ctx.records("arr")
+    ctx.exhaustive = True   # the TLC-enumerated family; the random records on top of it are sampled
 
 
 def plan_C15(ctx):
@@ -304,7 +360,8 @@ def plan_C15(ctx):
                 "as literals and through var; one case per TLC state" % (4 if ctx.deep else 3))
     cases = ctx.mc("MC_C15")
     ctx.replay(cases)
-    ctx.exhaustive = True
+    ctx.records("arr")
+    ctx.exhaustive = True   # the TLC-enumerated family; the random records on top of it are sampled
 
 
 def plan_C16(ctx):
@@ -313,7 +370,8 @@ def plan_C16(ctx):
                 "one case per TLC state" % (4 if ctx.deep else 3))
     cases = ctx.mc("MC_C16")
     ctx.replay(cases)
-    ctx.exhaustive = True
+    ctx.records("str")
+    ctx.exhaustive = True   # the TLC-enumerated family; the random records on top of it are sampled
 
 
 def plan_C05(ctx):
@@ -322,7 +380,8 @@ def plan_C05(ctx):
                 "is one replayed case with its exact log sequence; every call's hook-event stream (enter/log/ret) is validated by TLC against the machine; a case is "
                 "non-trivial when it is distinct (all lists are)" % (", truthy/falsy literals, nested and" if ctx.deep else "", "..7" if ctx.deep else ""))
     ctx.machine("C05")
-    ctx.exhaustive = True
+    ctx.records("ctl")
+    ctx.exhaustive = True   # the TLC-enumerated family; the random records on top of it are sampled
 
 
 def plan_C04(ctx):
@@ -336,7 +395,8 @@ def plan_C04(ctx):
     ctx.replay(cases, profiles=("debug",), extra=["--events", ev], source="substitution")
     ctx.replay(cases, profiles=("release",), source="substitution")
     ctx.validate_events(ev, "substitution")
-    ctx.exhaustive = True
+    ctx.records("mix")
+    ctx.exhaustive = True   # the TLC-enumerated family; the random records on top of it are sampled
 
 
 def plan_C17(ctx):
@@ -348,9 +408,10 @@ def plan_C17(ctx):
     bins = ctx.bins(("debug", "release"))
     allh = os.path.join(ctx.wd, "histories.ndjson")
     open(allh, "w").close()
-    for fam in ("T2", "T3"):
+    for fam in ("T2", "T3", "T8", "T16"):
         h = ctx.mc("MC_C17", env={"VERIF_FAMILY": fam}, tag="MC_C17_" + fam)
-        ctx.mc("MC_C17", cfg="MC_C17_live", env={"VERIF_FAMILY": fam}, tag="MC_C17_live_" + fam, export=False)
+        if fam in ("T2", "T3"):
+            ctx.mc("MC_C17", cfg="MC_C17_live", env={"VERIF_FAMILY": fam}, tag="MC_C17_live_" + fam, export=False)
         with open(allh, "a") as f:
             f.write(open(h).read())
     for prof in ("debug", "release"):
@@ -397,6 +458,7 @@ def plan_C17(ctx):
             ctx.validate_events(ev, "histories-" + prof)
     ctx.nontrivial.update(("hist", i) for i in range(summary["histories"]))
     ctx.machine("C04", live=False, profiles=("debug",))
+    ctx.records("mix")
     ctx.assumptions.append("instruction-level data races are not enumerated: the atomic step of the Calls model (one whole log line) is justified by apply taking &Value, "
                            "the crate having no statics, interior mutability or unsafe code; real threads are exercised but schedules are sampled")
 
@@ -439,7 +501,7 @@ def plan_C18(ctx):
     with open(scen) as f:
         for i, line in enumerate(f):
             ctx.nontrivial.add(("scenario", i))
-    ctx.exhaustive = True
+    ctx.exhaustive = True   # the TLC-enumerated family; the random records on top of it are sampled
     ctx.assumptions.append("documented flags (-h --help -V --version), a closed stdout (EPIPE) and argv that is not valid Unicode are outside the statement")
 
 
@@ -503,7 +565,7 @@ def plan_C19(ctx):
     with open(scen) as f:
         for i, line in enumerate(f):
             ctx.nontrivial.add(("scenario", i))
-    ctx.exhaustive = True
+    ctx.exhaustive = True   # the TLC-enumerated family; the random records on top of it are sampled
     ctx.assumptions.append("objects json.dumps itself rejects are outside the statement (the exception then comes from the serializer, not the library); CPython 3.11 of this image")
 
 
@@ -576,6 +638,7 @@ def plan_C01(ctx):
         for mod, env in (("MC_C11", None), ("MC_C16", None), ("MC_C12", None), ("MC_C10", None)):
             cs = ctx.mc(mod, env=env)
             ctx.replay(cs, profiles=("relchk",))
+    ctx.records("mix", n=(60000 if ctx.deep else 6000))
     ctx.assumptions.append("hangs are detected by a watchdog on the code (20 s) and proved absent only for the specification (machine termination under weak fairness)")
     ctx.assumptions.append("not every 64-bit integer / double: boundary classes of each abs, try_into, checked_*, cast and comparison in the code, plus the families of the other properties")
 
